@@ -133,6 +133,8 @@ def run_impl(cfg, events, ops, trace=False, payload_type=bytes, keymode="script"
                 f"Sec-WebSocket-Accept: {acc_}\r\n\r\n").encode()
         sock.events.insert(0, ("chunk", head))
         saved_acc, sock.accepts = sock.accepts, None
+        saved_fail, sock.send_fail_after = sock.send_fail_after, None
+        saved_eagain, sock.eagain = sock.eagain, set()
         _keys = list(cfg.get("keys") or [])
         _fdraws = []
 
@@ -142,8 +144,13 @@ def run_impl(cfg, events, ops, trace=False, payload_type=bytes, keymode="script"
         _old = _os.urandom
         _os.urandom = lambda k: key_raw[:k]
         try:
-            ws = websocket.create_connection("ws://example.test/", socket=sock, get_mask_key=_fkey,
-                                             fire_cont_frame=bool(cfg.get("fire")), skip_utf8_validation=bool(cfg.get("skip")))
+            # an option that is off is LEFT OUT (the documented default of both is False); one that is on is passed
+            _fopts = {}
+            if cfg.get("fire"):
+                _fopts["fire_cont_frame"] = True
+            if cfg.get("skip"):
+                _fopts["skip_utf8_validation"] = True
+            ws = websocket.create_connection("ws://example.test/", socket=sock, get_mask_key=_fkey, **_fopts)
         finally:
             _os.urandom = _old
         del sock.sent[:]
@@ -152,6 +159,7 @@ def run_impl(cfg, events, ops, trace=False, payload_type=bytes, keymode="script"
         sock.send_calls = 0
         del sock.recv_sizes[:]
         sock.accepts, sock.acc_i = saved_acc, 0
+        sock.send_fail_after, sock.eagain = saved_fail, saved_eagain
     else:
         ws = websocket.WebSocket(fire_cont_frame=bool(cfg.get("fire")), skip_utf8_validation=bool(cfg.get("skip")),
                                  enable_multithread=bool(cfg.get("mt", True)))
